@@ -267,6 +267,23 @@ func cmdDepth(args []string) {
 			}
 		}
 	}
+	// an error that another package already handled into ITS domain: handling it again denotes the
+	// package that does so now (nothing is taken over from the earlier barrier)
+	for pi, hd := range []func(error) string{dp1.HandledDomain, dp2.HandledDomain, dp3.HandledDomain} {
+		for qi, h := range []func(error) error{dp1.Handled, dp2.Handled, dp3.Handled} {
+			evals++
+			want := "error domain: pkg " + filepath.Join(harnessDir, fmt.Sprintf("dp%d", pi+1))
+			if got := hd(h(leafErr)); got != want {
+				fail(fmt.Sprintf("rehandled-dp%d-over-dp%d", pi+1, qi+1),
+					fmt.Sprintf("domains.Handled called from package dp%d on an error already handled by dp%d denotes %q, expected the caller (%q)", pi+1, qi+1, got, want), "")
+			}
+			evals++
+			if got := hd(errors.WithDomain(leafErr, errors.Domain("error domain: \"other\""))); got != want {
+				fail(fmt.Sprintf("handled-dp%d-over-domain", pi+1),
+					fmt.Sprintf("domains.Handled called from package dp%d on an error with a domain of its own denotes %q, expected the caller (%q)", pi+1, got, want), "")
+			}
+		}
+	}
 	// GetOneLineSource names the innermost stack-capturing frame, whichever layers were added on
 	// top, whether the layers are local or were received from another process, and however
 	// deep the call was made
